@@ -3,6 +3,7 @@ C11 — Plane sections lie on plane and surface; slices partition the solid.
 Property theorems only; helper lemmas live in Proofs/Slice.lean.
 -/
 import TrimeshVerif.Proofs.Slice
+import TrimeshVerif.Proofs.SliceRat
 namespace TV.C11
 open TV.Mat3 TV.Affine TV.Remesh TV.Slice
 
@@ -96,4 +97,28 @@ theorem C11_shifted_plane (n o p : V3 K) (h : K) (hn : dot n n = 1) :
   rw [sdist_shift, hn, mul_one]
 
 end field
+/-! ### the executable rational model of the per-triangle handlers (Model/Slice.lean, run by the driver on
+    every face of every section case and compared with `mesh_plane`) -/
+
+/-- **every endpoint `mesh_plane` emits lies on the plane** up to the tolerance band used for the signs
+    (exactly on it for crossing points), for every triangle, plane and tolerance -/
+theorem C11_rat_section_on_plane (tol : Rat) (htol : 0 ≤ tol) (n o : TV.Slice.V) (t : TV.Slice.Tri)
+    (p q : TV.Slice.V) (h : sectionTri tol n o t = some (p, q)) :
+    absR (sdistR n o p) ≤ tol ∧ absR (sdistR n o q) ≤ tol :=
+  section_on_plane tol htol n o t p q h
+
+/-- **and on the mesh surface**: it is a corner of the triangle or a point of one of its edges -/
+theorem C11_rat_section_on_triangle (tol : Rat) (htol : 0 ≤ tol) (n o : TV.Slice.V) (t : TV.Slice.Tri)
+    (p q : TV.Slice.V) (h : sectionTri tol n o t = some (p, q)) :
+    ∀ x ∈ [p, q], ∃ (u v : TV.Slice.V) (s : Rat), u ∈ [t.1, t.2.1, t.2.2] ∧ v ∈ [t.1, t.2.1, t.2.2] ∧
+      0 ≤ s ∧ s ≤ 1 ∧ x = TV.Slice.addV u (TV.Slice.smulV s (TV.Slice.subV v u)) :=
+  section_on_triangle tol htol n o t p q h
+
+/-- a triangle strictly on one side of the plane contributes no segment -/
+theorem C11_rat_section_none (tol : Rat) (htol : 0 ≤ tol) (n o : TV.Slice.V) (t : TV.Slice.Tri)
+    (h : (tol < sdistR n o t.1 ∧ tol < sdistR n o t.2.1 ∧ tol < sdistR n o t.2.2) ∨
+         (sdistR n o t.1 < -tol ∧ sdistR n o t.2.1 < -tol ∧ sdistR n o t.2.2 < -tol)) :
+    sectionTri tol n o t = none :=
+  section_none_one_side tol n o t h htol
+
 end TV.C11
